@@ -900,8 +900,12 @@ def install(it):
     def m_searchInts(it_, a):
         import bisect
         x = a[1]
-        if is_sym(x): x = it.concretize(x)
-        return bisect.bisect_left(ints_of(a[0]), x)
+        xs = ints_of(a[0])
+        if is_sym(x):
+            # position = number of elements below x (the slice is sorted when this is meaningful)
+            ts = [z3.If(z3.BitVecVal(e, 64) < x, z3.BitVecVal(1, 64), z3.BitVecVal(0, 64)) for e in xs]
+            return z3.simplify(sum(ts[1:], ts[0])) if ts else 0
+        return bisect.bisect_left(xs, x)
     M['sort.SearchInts'] = m_searchInts
 
     def m_repeat(it_, a):
